@@ -425,7 +425,7 @@ func (s *UtxoStore) VerifWF() bool { return s != nil && s.bucketMeta != nil }
 // P2 (C09): every relevant input of a pending transaction gets the transaction's hash appended to the
 // spender list of exactly the outpoint it spends; nothing else in that bucket changes in the step.
 //@ func (*UtxoStore).insertUnminedInputs
-//@   props C09 C18 C19
+//@   props C02 C09 C18 C19
 //@   requires s != nil && s.bucketMeta != nil && tx != nil && rec != nil && relInOK(rec)
 //@   requires miWFI(B(tx, s.bucketMeta.nsUnminedInputs))
 //@   modifies bmapI(B(tx, s.bucketMeta.nsUnminedInputs))
